@@ -267,6 +267,33 @@ func genKeyid(g *hx.Gen, out *hx.Out) {
 			emit(render(mm))
 		}
 	}
+	// every member duplicated, exactly and under a case-variant name, before and after the original,
+	// with another value of the same JSON kind (which of the two wins must not depend on the check)
+	otherOfKind := func(raw string) []string {
+		switch {
+		case raw == "true":
+			return []string{"false"}
+		case raw == "false":
+			return []string{"true"}
+		case strings.HasPrefix(raw, `"`):
+			return []string{`"other"`, `""`}
+		case strings.HasPrefix(raw, "["):
+			return []string{`["z"]`, `[]`}
+		default:
+			return []string{"0", "2", "7", "65535", "1"}
+		}
+	}
+	for _, fl := range []int{0, 3} {
+		b2 := members(genKid(g, fl, 1, 0, 1))
+		for i := range b2 {
+			for _, name := range []string{b2[i].key, strings.ToUpper(b2[i].key), strings.ToUpper(b2[i].key[:1]) + b2[i].key[1:]} {
+				for _, v := range otherOfKind(b2[i].raw) {
+					emit(render(append(append([]member{}, b2...), member{name, v})))
+					emit(render(append([]member{{name, v}}, b2...)))
+				}
+			}
+		}
+	}
 }
 
 // mutate2 damages the text itself (truncation, byte flip, trailing data).
@@ -314,7 +341,26 @@ func runCertType(args []string) []string {
 	if got == nil {
 		got = []string{}
 	}
-	return []string{strconv.Itoa(int(t)), label, hx.StrList(got)}
+	// the classification is a function of the certificate: what a caller does to a KeyID value it
+	// decoded from the same text must not change it
+	again := "again=same"
+	if c != nil {
+		if k, err := keyid.Unmarshal(c.KeyId); err == nil && k != nil {
+			k.TouchPolicy = (k.TouchPolicy + 1) % 4
+			k.IsNonce, k.IsFirefighter, k.IsHWKey, k.IsHeadless = !k.IsNonce, !k.IsFirefighter, !k.IsHWKey, !k.IsHeadless
+			k.TransID = "mutated-by-caller"
+			k.Principals = append(k.Principals, "x")
+		}
+		t2 := certutil.GetType(c)
+		label2 := "none"
+		if l, err := certutil.Label(c); err == nil {
+			label2 = hx.HexS(l)
+		}
+		if t2 != t || label2 != label || hx.StrList(certutil.GetPrincipals(prins, t2)) != hx.StrList(got) {
+			again = "again=changed"
+		}
+	}
+	return []string{strconv.Itoa(int(t)), label, hx.StrList(got), again}
 }
 
 func genCertType(g *hx.Gen, out *hx.Out) {
